@@ -49,14 +49,20 @@ def impl_classify(ids):
     return f'{type(e).__name__}@{k}', e
 
 
+# identifiers octez really sends: preferred as replay witnesses when they fail
+REAL_IDS = ['proto.alpha.michelson_v1.script_rejected', 'proto.alpha.michelson_v1.bad_return',
+            'proto.alpha.michelson_v1.bad_contract_parameter', 'proto.alpha.michelson_v1.runtime_error',
+            'proto.alpha.tez.subtraction_underflow', 'proto.alpha.contract.balance_too_low']
+
+
 def replay_rank(ids):
-    """smaller = reported first: a single error, the statement's own form proto.<protocol>.<category>.<name>, no empty
-    component, fewer components, shorter"""
+    """smaller = reported first: a single error, a real octez id, the statement's own form
+    proto.<protocol>.<category>.<name>, no empty component, fewer components, shorter"""
     if not ids:
         return (0,)
     chunks = ids[-1].split('.')
     canonical = len(chunks) == 4 and chunks[0] == 'proto' and chunks[1] == 'alpha' and '' not in chunks
-    return (len(ids), not canonical, '' in chunks, len(chunks), len(ids[-1]), ids[-1])
+    return (len(ids), ids[-1] not in REAL_IDS, not canonical, '' in chunks, len(chunks), len(ids[-1]), ids[-1])
 
 
 def hx(s):
